@@ -217,6 +217,14 @@ def write_generated(name: str, text: str) -> bool:
     return True
 
 
+def restore_generated(name: str):
+    """Put back the committed baseline of a generated file (used when a translator fails)."""
+    rel = f'lean/Atomman/Generated/{name}.lean'
+    r = subprocess.run(['git', 'show', f'HEAD:{rel}'], cwd=VERIF, capture_output=True, text=True)
+    if r.returncode == 0:
+        write_generated(name, r.stdout)
+
+
 FORBIDDEN = re.compile(r'\b(sorry|admit|native_decide|bv_decide|implemented_by|unsafe)\b|^\s*axiom\s|maxHeartbeats\s+0\b',
                        re.M)
 
